@@ -75,8 +75,8 @@ def pstr(proj):
             out.append({'deref': '*', '&': '&'}.get(e, str(e)))
     s = ''.join(out)
     # `&` immediately followed by `*` cancel
-    while '&*' in s:
-        s = s.replace('&*', '')
+    while '&*' in s or '*&' in s:
+        s = s.replace('&*', '').replace('*&', '')
     return s
 
 
